@@ -17,8 +17,8 @@
 //  5. leaf tuples: build leaves with every reference encoding through the real serializers and
 //     check walker vs. the address the real field reader dereferences.
 //
-// Omissions already reported as findings carry stable keys `walk-missing:<Table>.<field>` and go
-// to Rep.Known; any other omission is a Violate.
+// Omissions carry stable keys `walk-missing:<Table>.<field>`; the one still listed as a known
+// finding (ExtendedAddrEnc) goes to Rep.Known, any other omission is a Violate.
 package main
 
 import (
@@ -44,11 +44,10 @@ import (
 	"verif/harness/internal/wg"
 )
 
+// omissions that are still known findings.  (The four working-set fields of DESIGN.md §11 d were
+// repaired in /repo bf9bc24: if one of them returns it is a plain violation; corpus/C09 holds the
+// regression input.)
 var knownMissing = map[string]bool{
-	"RebaseState.pre_working_root_addr":        true,
-	"RebaseState.onto_commit_addr":             true,
-	"MergeState.pre_merge_head_commit_addr":    true,
-	"MergeState.pending_commit_hashes":         true,
 	"ProllyTreeNode.value_items[ExtendedAddrEnc]": true,
 }
 
